@@ -2,13 +2,13 @@
 from vx.unit import Unit
 from vx.extract import C
 
-PROPS = ['C16', 'C01']
+PROPS = ['C16', 'C18', 'C01']
 HEADER = 'use vstd::prelude::*;\nverus! {\n'
 FOOTER = '\n} // verus!\nfn main() {}\n'
 
 
 def build(repo, findings):
-    u = Unit('U17', 'trap handler invocation and the -c front-end exit hook', repo, ['C16'], safety_props=['C01', 'C16'])
+    u = Unit('U17', 'trap handler invocation and the -c front-end exit hook', repo, ['C16', 'C18'], safety_props=['C01', 'C16'])
     tr = u.source('brush-core/src/shell/traps.rs')
     ex = u.source('brush-core/src/shell/execution.rs')
     sh = u.source('brush-core/src/shell.rs')
@@ -37,7 +37,7 @@ def build(repo, findings):
     fn = 'invoke_trap_handler'
     f.sig(fn, ret='res', ensures=[
         C('C16 status-preserved', 'final(self).last_exit_status == old(self).last_exit_status'),
-        C('C16 stack-balanced', 'final(self).call_stack.depth() == old(self).call_stack.depth()'),
+        C('C16,C18 stack-balanced', 'final(self).call_stack.depth() == old(self).call_stack.depth()'),
         C('C16 never-reenters-itself', 'old(self).call_stack.active(signal) ==> final(self).runs() == old(self).runs()'),
         C('C16 blocked-delivery-runs-nothing', 'old(self).call_stack.suppressed() ==> final(self).runs() == old(self).runs()'),
         C('C16 at-most-once', 'final(self).runs().len() <= old(self).runs().len() + 1 && old(self).runs().is_prefix_of(final(self).runs())'),
@@ -74,8 +74,16 @@ def build(repo, findings):
     ])
     u.add(d)
     u.raw('}\n#[verifier::external_body]\npub fn vx_default_params() -> ExecutionParameters { unimplemented!() }\n')
+    # ---- source_file: the frame of the sourced script (R6 slice from the push to the end of the function)
+    fn = 'source_file_tail'
+    sf = ex.slice('source_file', r'^\s*self\.call_stack\s*$', None,
+                  'fn source_file_tail(self_: &mut Shell, parse_result: Result<Program, ParseError>, source_info: &SourceInfo, params: &ExecutionParameters, call_type: ScriptCallType, script_positional_args: ScriptArgs) -> Result<ExecutionResult, Error>', fn)
+    sf.r1().r3()
+    sf.resub(r'\bself\b', 'self_', 'R6', 'slice wrapper: self -> self_', count=None)
+    sf.sig(fn, ret='res', ensures=[C('C18,C16 the-frame-of-a-sourced-file-is-popped-on-every-exit', 'final(self_).call_stack.depth() == old(self_).call_stack.depth()')])
+    u.add(sf)
     u.raw(FOOTER)
-    u.assume('external_body', 'run_string carries an ASSUMED frame contract (call stack left as found, on Ok and on Err); enter/leave_trap_handler and start/end_command_string_mode carry the CallStack push/pop contracts proved in U19; CallStack, TrapHandlerConfig, SourceInfo, Rest are opaque')
+    u.assume('external_body', 'run_string / run_parsed_result carry an ASSUMED frame contract (call stack left as found, on Ok and on Err); enter/leave_trap_handler and start/end_command_string_mode carry the CallStack push/pop contracts proved in U19; CallStack, TrapHandlerConfig, SourceInfo, Rest are opaque')
     u.assume('uninterp', 'CallStack::active/suppressed/depth/top_is_command_string, TrapHandlerConfig::handler, Rest::runs (ghost log)')
     u.assume('stub', 'the interactive front-end, run_script, brush-shell entry.rs (tokio runtime, signals), "after all other output", exec, and `exit` inside nested constructs reaching the front-end are NOT verified')
     u.assume('assume_specification', 'Option::copied / Option::<u8>::unwrap_or_default (std documented behaviour; available so that a status restore written with them is verified rather than refused)')
